@@ -399,6 +399,8 @@ JudgeNew(e) ==
    devs |->
      CliCrashDevs(o) \cup fin.devs \cup
      (IF stale THEN {D({"C12"}, "phrase_repeated_across_invocations", phrase)} ELSE {}) \cup
+     (IF ~mustRefuse /\ Has(e.in.shim, "slow_after_fail_ms") /\ ~VN!PromptExit(cfg, fin.s)
+      THEN {D({"C12"}, "search_continued_after_entropy_failure", ToString(fin.s.late))} ELSE {}) \cup
      (IF ~bound THEN {D({"C18"}, "argv_not_rendering_of_command", "")} ELSE {}) \cup
      (IF crashed THEN
         (IF o.timeout /\ c.prefix # "" /\ Len(pre.nibbles) <= 3 /\ ~mustRefuse THEN {D({"C18"}, "vanity_search_did_not_terminate", "")}
